@@ -81,7 +81,7 @@ def gen(rnd, i):
         else:
             c['b'] = ax
     return dict(name='lp%d' % i, n1=n1, n2=n2, cons=cons, bnds=bnds, c=[g() for _ in range(n)],
-                sense=rnd.choice(['min', 'max']))
+                sense=rnd.choice(['min', 'max']), front=['ro', 'lp'][i % 2], order=['obj_last', 'obj_first'][(i // 2) % 2])
 
 
 def cases(tier, seed, rnd):
@@ -90,8 +90,8 @@ def cases(tier, seed, rnd):
 
 
 def build(spec):
-    from rsome import ro
-    m = ro.Model()
+    from rsome import ro, lp
+    m = lp.Model() if spec.get('front') == 'lp' else ro.Model()
     x = m.dvar(spec['n1'])
     y = m.dvar(spec['n2']) if spec['n2'] else None
     n1 = spec['n1']
@@ -101,6 +101,8 @@ def build(spec):
         if y is not None:
             e = e + (np.array(row[n1:], dtype=float) * y).sum()
         return e
+    if spec.get('order') == 'obj_first':
+        (m.min if spec['sense'] == 'min' else m.max)(lin(spec['c']))
     objs = []
     for c in spec['cons']:
         A = np.array(c['A'], dtype=float)
@@ -122,9 +124,15 @@ def build(spec):
         val = np.array(b['v'], dtype=float) if isinstance(b['v'], list) else b['v']
         con = (tgt <= val) if b['t'] == 'U' else (tgt >= val)
         bobjs.append(m.st(con))
-    f = lin(spec['c'])
-    (m.min if spec['sense'] == 'min' else m.max)(f)
+    if spec.get('order') != 'obj_first':
+        (m.min if spec['sense'] == 'min' else m.max)(lin(spec['c']))
     return m, x, y, objs, bobjs
+
+
+def inject_solution(m, sol):
+    if hasattr(m, 'rc_model'):
+        m.rc_model.solution = sol
+    m.solution = sol
 
 
 def user_rows(spec):
@@ -199,8 +207,7 @@ def run_case(case, ses):
     UP = pvars('up', (ncol,))
     LO = pvars('lo', (ncol,))
     sol = Solution('symbolic', 0.0, np.zeros(ncol), 0, 0.0, y=dict(pi=PI, upi=UP, lpi=LO))
-    m.rc_model.solution = sol
-    m.solution = sol
+    inject_solution(m, sol)
     env = {}
     for i in range(nrow):
         env['pi[%d]' % i] = pi[i]
@@ -341,8 +348,7 @@ def replay(data, verbose=False):
         k = data['kkt']
         sol = Solution('replay', float(np.dot(f.obj, k['x'])), np.array(k['x']), 0, 0.0,
                        y=dict(pi=np.array(k['pi']), upi=np.array(k['upi']), lpi=np.array(k['lpi'])))
-        m.rc_model.solution = sol
-        m.solution = sol
+        inject_solution(m, sol)
         xs = np.array(k['x'])
         ucols = list(range(x.first, x.first + x.size)) + (list(range(y.first, y.first + y.size)) if y is not None else [])
         fval_ = float(np.dot(spec['c'], xs[ucols]))
